@@ -5,6 +5,7 @@ import (
 	"os"
 	"regexp"
 	"sync"
+	"unicode/utf8"
 
 	"github.com/reeflective/readline/inputrc"
 	"github.com/reeflective/readline/internal/strutil"
@@ -224,6 +225,13 @@ func (k *Keys) ReadKey() (key rune, isAbort bool) {
 	}()
 
 	switch {
+	case len(k.buf) > 0:
+		// Keys that were read along with the command's own
+		// keys (pasted or typed ahead) come first.
+		char, size := utf8.DecodeRune(k.buf)
+		key = char
+		k.buf = k.buf[size:]
+
 	case len(k.macroKeys) > 0:
 		key = k.macroKeys[0]
 		k.macroKeys = k.macroKeys[1:]
